@@ -126,6 +126,17 @@ Lemma skel_matches :
   add_drag_files = expected_add_drag_files /\ reset_drag_files = expected_reset_drag_files.
 Proof. repeat split; reflexivity. Qed.
 
+(* the public UploadFiles API: refused while a transfer runs or a drop is pending, else
+   addDragFiles (EvApiUpload of the model) *)
+Definition expected_upload_files_api : list sk :=
+  [Loop [If "err != nil" [] [Return] []; If "err != nil" [Call "checkPathsReadable" ""] [Return] []];
+   If "filter.IsTransferringFiles()" [Call "IsTransferringFiles" "filter"] [Return] [];
+   If "filter.dragging.Load()" [Call "Load" "filter.dragging"] [Return] [];
+   Call "addDragFiles" "filter"; Return].
+
+Lemma skel_matches_api : upload_files_api = expected_upload_files_api.
+Proof. reflexivity. Qed.
+
 Local Close Scope string_scope.
 
 (* ------------------------------------------------------------------------------------ *)
@@ -346,7 +357,8 @@ Section FilterProofs.
   Lemma step_calm : forall s e s' ob, calm s -> quiet s e = true -> step s e = (s', ob) ->
     calm s' /\ delivered s e s' ob.
   Proof.
-    intros s e s' ob Hc Hq Hs. destruct e as [c|c| | |i|i a| |z]; cbn [Filter.step] in Hs.
+    intros s e s' ob Hc Hq Hs. destruct e as [c|c| | |i|i a| |z|fs0 hd0]; cbn [Filter.step] in Hs.
+    9: (cbn in Hq; discriminate Hq).
     - destruct (out_step_calm s c s' ob Hc Hq Hs) as (C1 & C2 & C3 & C4 & C5).
       split; auto. unfold delivered. rewrite C2, C3. cbn. unfold Filter.held_bytes. rewrite C4.
       repeat split; auto. rewrite app_nil_r; reflexivity.
@@ -762,7 +774,9 @@ Section FilterProofs.
 
   Lemma step_inv : forall (s : state) e, inv s -> inv (fst (step s e)).
   Proof.
-    intros s e Hi. destruct e as [c|c| | |i|i a| |z]; cbn [Filter.step].
+    intros s e Hi. destruct e as [c|c| | |i|i a| |z|fs0 hd0]; cbn [Filter.step].
+    9: { cbn [fst]. destruct (transfer s || dragging s); auto.
+         pose proof (add_drag_frame s fs0 hd0) as (F1 & F2 & F3 & F4). eapply inv_frame; eauto. }
     - pose proof (out_step_frame s c) as (F1 & F2 & F3 & F4). eapply inv_frame; eauto.
     - pose proof (in_step_frame s c) as (F1 & F2 & F3 & F4). eapply inv_frame; eauto.
     - cbn [fst]. destruct (o_drag o); auto. all: try (eapply inv_frame; eauto; try (destruct s; cbn; auto)).
@@ -1063,7 +1077,9 @@ Section FilterProofs.
 
   Lemma step_pinv : forall (s : state) e, pinv s -> pinv (fst (step s e)).
   Proof.
-    intros s e Hp. destruct e as [c|c| | |i|i a| |z]; cbn [Filter.step].
+    intros s e Hp. destruct e as [c|c| | |i|i a| |z|fs0 hd0]; cbn [Filter.step].
+    9: { cbn [fst]. destruct (transfer s || dragging s); auto.
+         pose proof (add_drag_frame s fs0 hd0) as (F1 & _). unfold pinv. rewrite F1, add_drag_prompt. exact Hp. }
     - pose proof (out_step_frame s c) as (F1 & _). unfold pinv. rewrite F1, out_step_prompt. auto.
     - apply in_step_pinv; auto.
     - cbn [fst]. destruct (o_drag o); auto. all: try (unfold pinv in *; destruct s; cbn in *; auto).
@@ -1250,7 +1266,7 @@ Section OscInert.
     no_clip (snd (step (opts_but_osc52 o v1) a e)) = no_clip (snd (step (opts_but_osc52 o v2) b e)).
   Proof.
     intros o v1 v2 a b e E.
-    destruct e as [c|c| | |i|i x| |z]; cbn [Filter.step]; [apply out_step_osc; exact E|..].
+    destruct e as [c|c| | |i|i x| |z|fs0 hd0]; cbn [Filter.step]; [apply out_step_osc; exact E|..].
     all: destruct (osc_eq_set _ _ E) as [q Eq]; subst b; clear E.
     all: destruct a as [transfer0 zmodem0 prompt0 prompts0 trace_on0 interrupting0 skip_cmd0 cur_cmd0 osc0 detect_on0
                          dragging0 drag_has_dir0 drag_files0 held0 det0 drag_procs0 handlers0].
@@ -1272,6 +1288,7 @@ Section OscInert.
       destruct x, ph, transfer0, dragging0, (o_fixed o), prompt0; cbn -[osc_eq no_clip]; split; reflexivity.
     - cbn -[osc_eq no_clip]. split; reflexivity.
     - cbn -[osc_eq no_clip]. destruct zmodem0; split; reflexivity.
+    - unfold add_drag. cbn -[osc_eq no_clip]. destruct (transfer0 || dragging0), drag_files0; split; reflexivity.
   Qed.
 
   Theorem run_osc : forall es o v1 v2 (a b : state), osc_eq a b ->
